@@ -247,6 +247,14 @@ func Destroy() {
 	for _, a := range global.appenders {
 		a.Stop()
 	}
+	// Unbind tags and handles: the loggers they pointed to are stopped now,
+	// so logging falls back to the built-in console logger until the next Refresh.
+	for _, t := range tagRegistry {
+		t.logger = nil
+	}
+	for _, l := range loggerMap {
+		l.logger = nil
+	}
 	global.loggers = nil
 	global.appenders = nil
 	global.init = false
